@@ -3,6 +3,7 @@
 package main
 
 import (
+	"encoding/json"
 	"flag"
 	"fmt"
 	"os"
@@ -91,14 +92,21 @@ func main() {
 		r := NewR(w, pd.ID, *tier)
 		pd.Run(r)
 		if *tier == "thorough" && os.Getenv("ARVCHECK_SELFTEST") == "" {
-			max := 40
+			max := 300
 			if m := os.Getenv("VERIF_SELFTEST_MAX"); m != "" {
 				if n, err := strconv.Atoi(m); err == nil {
 					max = n
 				}
 			}
 			r.Extra["whole_module_load"] = true
-			r.Extra["selftest"] = runSelfTest(r, *repo, seed, max)
+			st := runSelfTest(r, *repo, seed, max)
+			r.Extra["selftest"] = st
+			if dir := os.Getenv("VERIF_SELFTEST_DIR"); dir != "" {
+				if b, err := json.MarshalIndent(st, "", " "); err == nil {
+					os.MkdirAll(dir, 0o755)
+					os.WriteFile(dir+"/"+pd.ID+".json", b, 0o644)
+				}
+			}
 		}
 		code = r.Finish(*verif, start, seed)
 	}()
